@@ -88,3 +88,9 @@ check("C17", "enum+dfs",
       "Ancestor/FindFork/locators/LocateBlocks/LocateHeaders/HeightRange/IntervalBlockHashes/HeightToHashRange and the chain-view API on index-only chains; on real lab chains BestHeader, IsValidHeader, HeaderHashByHeight, BestChainHeaderForkHeight, refusal of headers below an invalid block, and equality of the final chain with a blocks-only delivery. Reference bound to the doc-comment examples and the TestLocateInventory/TestHeightToHashRange vectors.",
       "Part (b): trees <=4 (quick) / <=5 (thorough) blocks, one kind of invalid block, parents-first block deliveries.",
       "DESIGN.md §4 C17")
+
+check("C06", "enum",
+      "exhaustive enumeration of script programs (every byte string <=2/3 bytes in 7 placements, every token sequence <=2-4 over a 132/50-token alphabet x initial stacks x bare/P2SH/P2WSH/tapscript wrappings, signature-opcode shape products, exact-limit programs, lock-time grids) x the flag sets block validation and relay can produce, against an independent interpreter written from Bitcoin Core's semantics",
+      "NewEngine(...).Execute()==nil must equal refscript.VerifyScript for every case and btcd must never panic; refscript reproduces all of script_tests.json, tx_valid/tx_invalid.json and the taproot-ref corpus before anything is compared. A disagreement is labelled with a named deviation only when the reference with exactly that emulated deviation agrees with btcd on the case (so mutants keep generic keys).",
+      "Signature equation via btcec (C11's subject); programs longer than the bounds only via the constructed limit cases; 7 known deviations from Core are listed in known_findings.json (2 consensus-level in obscure/historical paths, 5 relay-policy-level).",
+      "DESIGN.md §4 C06")
